@@ -260,6 +260,10 @@ func c30Op(rng *rand.Rand, persistent bool) string {
 		if rng.Intn(4) == 0 {
 			return "patchexp 0 " + c06Pick(rng, []string{"0", "1"}) + "|" + c06Pick(rng, c06Users) + "|0|||1"
 		}
+		// … or a patch that leaves ExpiredAt alone: the claimed records stay expired and stay indexed
+		if rng.Intn(3) == 0 {
+			return "patchexp " + c06Pick(rng, []string{"0", "1", "2"}) + " 0|" + c06Pick(rng, []string{"u7", "u8", ""}) + "|0|" + c06Pick(rng, []string{"u7", "u8"}) + "||0"
+		}
 		c30Uniq++
 		return "patchexp 1 " + c30Meta(rng, 10+c30Uniq)
 	case r < 72:
@@ -296,6 +300,10 @@ var c30Corpus = []c06CorpusCase{
 	// an expiry that passes while we wait.  Before: 3 s of slack for three requests; after: the second wait ends
 	// >= 50 ms past the expiry whatever the load (sleeps never return early), so "expired" is certain there.
 	{[]string{"mem"}, []string{"set 11 k0|bytes:c70080|||||b3000000000 k1|bytes:c70080|||||b3600000000000", "shiftexp 0", "fexp lt now", "getidx asc 0 0", "wait 3050", "fexp lt now", "patchexp 0 0||0||b3600000000000|0", "shiftexp 0", "getall"}},
+	// reloaded records (every "changed" flag clear) are claimed by a PatchExpiredTreasures that does not touch
+	// ExpiredAt: they are still expired, so every claim path must still find them afterwards
+	{[]string{"p1", "p0"}, []string{"set 11 k0|bytes:c70080|||||b-3600000000000 k1|bytes:c70080|||||b-50000000 k2|bytes:c70080|||||b3600000000000", "close",
+		"patchexp 0 0||0|u7||0", "getall", "getidx asc 0 0", "fexp lt now", "shiftexp 1", "getall", "patchexp 1 0||0|u8||0", "getall", "shiftexp 0", "getall"}},
 	// expiries 50 ms and 1 µs before the base are expired on every path from the first request on
 	{[]string{"mem", "p1"}, []string{"set 11 k0|bytes:c70080|||||b-50000000 k1|i64:1|||||b-1000 k2|bytes:c70080|||||b20000000000", "fexp lt now", "getidx asc 0 0", "patchexp 1 0||0||b3600000000000|0", "shiftexp 0", "getall"}},
 	// reload keeps the expiry and rebuilds the index
